@@ -12,23 +12,23 @@ BASELINE = "cd /repo && /venv/bin/python -m pytest -ra -q -p no:cacheprovider --
 
 CHECKS = {
     "C03": dict(
-        technique="static analysis: post-dominance of the Hermitian symmetrisation in the clang AST of the D(q) producers (statement-list position relative to the OpenMP/serial twin and the single return), algebra of make_Hermitian's loop body by source-to-sympy translation, loop-bound extraction, open-term rules for the Python reference and the masses setter",
+        technique="static analysis: post-dominance of the Hermitian symmetrisation in the clang AST of the D(q) producers (statement-list position relative to the OpenMP/serial twin and the single return), algebra of make_Hermitian's loop body by source-to-sympy translation, symbolic loop-bound extraction (every pair j >= i, diagonal included), open-term rules for the Python reference and the masses setter",
         level="other",
         text="Decides only the Hermiticity and mass-propagation clauses: because the property quantifies over arbitrary force constants, 'every producer path ends in (M + M^H)/2' is a necessary condition visible in code shape, and make_Hermitian's body is shown algebraically to compute a'=(a+conj b)/2, b'=conj a' over all pairs j>=i. D(-q)=conj D(q), G-periodicity, point-group invariance, the acoustic sum rule and the s/t scaling are statements about values and are not decided.",
         note="Trusted: clang-14 JSON AST, sympy. The dipole-dipole term added after the symmetrisation on the Gonze-Lee path is Hermitian analytically, not by a code step; not judged.",
         ref="DESIGN.md §3 C03",
     ),
     "C04": dict(
-        technique="static analysis on Python ast: index-variance (frame) typing of the lattice linear algebra — every axis is Cartesian, a lattice basis index or a lattice component index; .T swaps, inv swaps and flips, a contraction needs the same lattice with opposite variance — seeded from the repository's own conventions (x.cell, x.scaled_positions, supercell and primitive matrices); plus rejection-path rules",
+        technique="static analysis on Python ast: index-variance (frame) typing of the lattice linear algebra — every axis is Cartesian, a lattice basis index or a lattice component index; .T swaps, inv swaps and flips, a contraction needs the same lattice with opposite variance — seeded from the repository's own conventions (x.cell, x.scaled_positions, supercell and primitive matrices); plus rejection-path rules (atom-count test before the maps are stored; species test on full symbols gathered through the mapping table)",
         level="other",
         text="Decides the clause 'the supercell has lattice S^T L' and its siblings for the primitive cell and the shortest-vector basis change for every matrix at once: a transposed or wrong-lattice product is a type error unless the matrix is diagonal, which is exactly why tests on diagonal/symmetric matrices cannot see it. Also decides that cells which cannot be tiled are rejected before index maps are stored. Does not decide duplicate-free tiling or the group property of the translation permutations (runtime values).",
         note="Trusted: CPython ast; the seed types of cell/positions/matrices (documented conventions of PhonopyAtoms and the Supercell/Primitive docstrings). Unknown operands type to unknown and are never reported.",
         ref="DESIGN.md §3 C04",
     ),
     "C09": dict(
-        technique="static analysis on Python ast: structural proof obligations on the weight construction (open-term comparison), typestate over guard-correlated paths for the coupled symmetry flags, sibling keyword agreement for stored/iterated meshes, linear-in-weight rule for every mesh consumer, guard-before-construction rule for consumers that need an unreduced mesh",
+        technique="static analysis on Python ast: structural proof obligations on the weight construction (open-term comparison), typestate over guard-correlated paths for the coupled symmetry flags, sibling keyword agreement for stored/iterated meshes, axis/weight abstract interpretation of nine mesh consumers (every sum/dot/einsum/loop accumulation over the irreducible q axis carries the weight; result homogeneous of degree 0 in the weights), pairwise precondition rule for the rotations (mesh numbers and half-shift flags per lattice-equivalent axis pair), guard-before-construction rule for consumers that need an unreduced mesh",
         level="other",
-        text="Decides the clauses that make 'reduced sampling == full sampling' true by construction: weights are one count per grid point selected by the values of the same table; time reversal is never used where mesh symmetry is off (all constructor paths, all callers); both mesh flavours receive the same rotations and the symmetry library their documented orientation; every consumer multiplies by the weight of the same q exactly once and divides by the weight sum; eigenvector-dependent consumers refuse reduced meshes. Does not decide that spglib's mapping is a correct orbit decomposition.",
+        text="Decides the clauses that make 'reduced sampling == full sampling' true by construction: weights are one count per grid point selected by the values of the same table; time reversal is never used where mesh symmetry is off (all constructor paths, all callers); both mesh flavours receive the same rotations and the symmetry library their documented orientation; every consumer (loop, dot, einsum or sum form) weights each q exactly once and divides by the weight sum; rotations are only used when mesh numbers and half-shifts agree on every pair of axes a rotation exchanges; eigenvector-dependent consumers refuse reduced meshes. Does not decide that spglib's mapping is a correct orbit decomposition.",
         note="Trusted: CPython ast, spglib's documented argument conventions.",
         ref="DESIGN.md §3 C09",
     ),
@@ -47,9 +47,9 @@ CHECKS = {
         ref="DESIGN.md §3 C11",
     ),
     "C12": dict(
-        technique="static analysis: source-to-sympy derivative identity for the chain-rule coefficient, open-term comparison of the finite-difference and Grueneisen formulas with the documented ones, whole-class attribute resolution for objects constructed from repository classes",
+        technique="static analysis: source-to-sympy derivative identity for the chain-rule coefficient, open-term comparison of the finite-difference and Grueneisen formulas with the documented ones, whole-class attribute resolution for objects constructed from repository classes, path enumeration of the q-point loops for band-order consistency of all per-band results",
         level="other",
-        text="Decides the coefficient clauses: the factor applied to <e|dD|e> is d(factor sqrt l)/dl, the numerical derivative is the symmetric difference over 2|dq|, gamma = -<e|dD|e>/(dV/V)/(2 l) with dD = D(V+) - D(V-) and the strain from the three supplied cells; and that every documented access path (attribute/method on a locally constructed repository object) exists. Does not decide that dD equals the derivative of D (loop nests), degeneracy handling or mesh agreement.",
+        text="Decides the coefficient clauses: the factor applied to <e|dD|e> is d(factor sqrt l)/dl, the numerical derivative is the symmetric difference over 2|dq|, gamma = -<e|dD|e>/(dV/V)/(2 l) with dD = D(V+) - D(V-) and the strain from the three supplied cells; that every documented access path (attribute/method on a locally constructed repository object) exists, and that eigenvalues, eigenvectors, <e|dD|e> and group velocities of one q-point are reordered by the same band connection. Does not decide that dD equals the derivative of D (loop nests), degeneracy handling or mesh agreement.",
         note="Trusted: CPython ast, sympy. Two known findings: phonopy-gruneisen calls two methods PhonopyGruneisen no longer has.",
         ref="DESIGN.md §3 C12",
     ),
@@ -75,30 +75,30 @@ CHECKS = {
         ref="DESIGN.md §3 C15",
     ),
     "C16": dict(
-        technique="static analysis on Python ast: extraction of the yaml keys the dumpers can emit (string/f-string templates, holes resolved through call-site literals) and of the keys the loaders read (taint from self._yaml), set agreement for the fields the property names, legacy-key table; format-string tokenisation of the whitespace-parsed text writers; who-passes-what rule for save()",
+        technique="static analysis on Python ast: extraction of the yaml keys the dumpers can emit (string/f-string templates, holes resolved through call-site literals) and of the keys the loaders read (taint from self._yaml), set agreement for the fields the property names, legacy-key table; format-string tokenisation of the whitespace-parsed text writers; who-passes-what rule for save() and monotonicity of the settings save() adjusts",
         level="other",
-        text="Decides the necessary conditions of write->read identity that are properties of the pair of functions: both sides use the same key names for every field the property lists, every other key the loader reads is emitted or a documented legacy key, save() hands all ten pieces of state to the dumper, numeric columns of FORCE_SETS/FORCE_CONSTANTS/BORN cannot fuse whatever the magnitude, and the 6-column split matches the writer. Does not decide numerical equality after a round trip or hdf5 contents.",
+        text="Decides the necessary conditions of write->read identity that are properties of the pair of functions: both sides use the same key names for every field the property lists, every other key the loader reads is emitted or a documented legacy key, save() hands all ten pieces of state to the dumper and never switches off an item the caller asked for, numeric columns of FORCE_SETS/FORCE_CONSTANTS/BORN cannot fuse whatever the magnitude, and the 6-column split matches the writer. Does not decide numerical equality after a round trip or hdf5 contents.",
         note="Trusted: CPython ast; legacy keys are a frozen table with one reason each; the latent prefix mismatch of the v2.23 legacy parser is reported as a note, not a finding.",
         ref="DESIGN.md §3 C16",
     ),
     "C17": dict(
-        technique="static analysis on Python ast: dispatch-table extraction and exhaustiveness over the calculator registry with callee existence/arity resolution, constant folding of units.py against a dimensional model of each unit string (factor, NAC factor, lengths, forces, conversion table), atom-order domain typing (original / sorted-by-species / permutation / grouped counts) in the structure writers, reader-tuple vs consumer shape agreement, refusal-path rule for create_FORCE_SETS",
+        technique="static analysis on Python ast: dispatch-table extraction and exhaustiveness over the calculator registry with callee existence/arity resolution, constant folding of units.py against a dimensional model of each unit string (factor, NAC factor, lengths, forces, conversion table), atom-order domain typing (original / sorted-by-species / permutation / grouped counts) in the structure writers, reader-tuple vs consumer shape agreement, refusal-path rule for create_FORCE_SETS, index-domain typing (file-row order vs atom-id order) of the id-keyed LAMMPS force loader",
         level="other",
-        text="Decides exhaustively over the 16 calculators: a handler exists with a compatible signature in all 7 dispatch functions; every unit number equals what its own unit strings imply (to 1e-9) so that one crystal gives the same THz in every unit system; no writer pairs a per-atom sequence in original order with one sorted by species (the defect only shows for interleaved input, which no sample file has); consumers index the reader's info tuple within its length; position mismatches refuse. Does not decide textual round trips of particular files or lattice orientation conventions.",
+        text="Decides exhaustively over the 16 calculators: a handler exists with a compatible signature in all 7 dispatch functions; every unit number equals what its own unit strings imply (to 1e-9) so that one crystal gives the same THz in every unit system; no writer pairs a per-atom sequence in original order with one sorted by species (the defect only shows for interleaved input, which no sample file has); consumers index the reader's info tuple within its length; position mismatches refuse; force rows keyed by atom id are scattered to that id, never gathered through the ids, and incomplete id sets are refused. Does not decide textual round trips of particular files or lattice orientation conventions.",
         note="Trusted: CPython ast; the per-atom meaning of two writer parameters (speci, conv_numbers) is a frozen table with reasons. Relative tolerance 1e-9 against constants folded from units.py itself.",
         ref="DESIGN.md §3 C17",
     ),
     "C18": dict(
-        technique="static analysis on Python ast: extraction of the seven tables of the settings pipeline (argparse dests, read_options forwarding with guard kind and value encoding, parse_conf handlers, set_parameter names, set_settings consumers, Settings keys/setters, settings reads in the scripts) and set-algebra / agreement rules between adjacent tables",
+        technique="static analysis on Python ast: extraction of the seven tables of the settings pipeline (argparse dests, read_options forwarding with guard kind and value encoding, parse_conf handlers, set_parameter names, set_settings consumers, Settings keys/setters, settings reads in the scripts) and set-algebra / agreement rules between adjacent tables, including evaluation of every parser default against the guard under which the dest is forwarded",
         level="other",
-        text="Decides, exhaustively over all ~107 options and ~111 tags, the clause 'a setting has the same effect as tag or as option' as far as it is a property of the tables: every option reaches a handler, every parameter reaches an existing setter, every settings read in the scripts exists, the encoding stored for a key is the one its handler parses (including the polarity of negative flags), and numeric options are forwarded under 'is not None' so that 0 means 0 on both routes. Does not decide that output files equal library results.",
+        text="Decides, exhaustively over all ~107 options and ~111 tags, the clause 'a setting has the same effect as tag or as option' as far as it is a property of the tables: every option reaches a handler, every parameter reaches an existing setter, every settings read in the scripts exists, the encoding stored for a key is the one its handler parses (including the polarity of negative flags), numeric options are forwarded under 'is not None' so that 0 means 0 on both routes, and an option that was not typed forwards nothing, so a configuration-file tag is not overridden by a parser default. Does not decide that output files equal library results.",
         note="Trusted: CPython ast. Options handled directly by the scripts and namespace-only probes are frozen lists with one reason each. Documentation tags are reported as notes only.",
         ref="DESIGN.md §3 C18",
     ),
     "C19": dict(
-        technique="static analysis: source-to-sympy translation of the displacement prefactors with symbolic unit constants (identity with hbar/(2 m w)(1+2n) and k_B T/(m w^2)), equality of the Bose-Einstein expressions across modules, structural rules for the sqrt(2) / real-imaginary bookkeeping of conjugate q-point pairs",
+        technique="static analysis: source-to-sympy translation of the displacement prefactors with symbolic unit constants (identity with hbar/(2 m w)(1+2n) and k_B T/(m w^2)), equality of the Bose-Einstein expressions across modules, structural rules for the sqrt(2) / real-imaginary bookkeeping of conjugate q-point pairs, interprocedural frame typing of the sampler's position/phase set-up",
         level="other",
-        text="Decides the prefactor and distribution clauses for all temperatures/frequencies at once: both modules' mean-square amplitude per mode is algebraically the harmonic canonical one (quantum and classical), the two Bose-Einstein factors are the same function, q = -q+G points carry no sqrt(2) and conjugate pairs do with Re - Im, and the partition is computed once. Does not decide covariance equality of the sampler, positive semi-definiteness or the CIF transform.",
+        text="Decides the prefactor and distribution clauses for all temperatures/frequencies at once: both modules' mean-square amplitude per mode is algebraically the harmonic canonical one (quantum and classical), the two Bose-Einstein factors are the same function, q = -q+G points carry no sqrt(2) and conjugate pairs do with Re - Im, the partition is computed once, and supercell positions enter the phases as primitive-cell components contracted with reduced q-points. Does not decide covariance equality of the sampler, positive semi-definiteness or the CIF transform.",
         note="Trusted: CPython ast, sympy, units.py constants as symbols. One known finding: populations are switched off for T <= 1 K in ThermalMotion.",
         ref="DESIGN.md §3 C19",
     ),
